@@ -16,7 +16,7 @@ from .. import sig as SG
 GRID = [F(2), F(3), F(-2), F(1, 2), F(5), F(-3), F(0), F(1), F(7), F(-1, 2), F(-1), F(3, 2),
         F(11), F(13), F(-5), F(1, 3), F(-7), F(5, 2), F(17), F(-2, 3), F(19), F(4), F(-4), F(6)]
 MAX_POINTS = 300
-REL_TOL = F(1, 10 ** 9)
+REL_TOL = F(1, 10 ** 12)  # IEEE doubles carry ~1e-16 per operation; 1e-12 x scale leaves room for long chains only
 
 
 def _const_int_value(s):
@@ -270,7 +270,39 @@ def same_solutions(sa, sb):
     if proportional:
         vd.note = "proportional" if k is not None else "both identities on the grid"
         return vd
-    # zero sets agree on the grid but the difference functions are not proportional
+    # zero sets agree on the grid but the difference functions are not proportional.
+    # One variable, both differences affine (degree bound 1, no denominator): the solution sets are computed
+    # exactly - {-b/a}, everything, or nothing - and compared.
+    if len(names) == 1 and da is not None and db is not None:
+        v = names[0]
+        if da.get(v, (0, 0))[0] <= 1 and da.get(v, (0, 0))[1] == 0 and db.get(v, (0, 0))[0] <= 1 and db.get(v, (0, 0))[1] == 0:
+            def affine(rows):
+                good = [(p[0], r[0]) for p, r in zip(pts, rows) if r[0] is not exact.UNDEF and r[0] is not exact.SKIP]
+                if len(good) < 2:
+                    return None
+                (x0, y0), (x1, y1) = good[0], good[1]
+                a = (y1 - y0) / (x1 - x0)
+                return a, y0 - a * x0
+
+            l1, l2 = affine(r1), affine(r2)
+            if l1 is not None and l2 is not None:
+                def solset(l):
+                    a, b = l
+                    if a != 0:
+                        return ("point", -b / a)
+                    return ("all",) if b == 0 else ("none",)
+
+                s1, s2 = solset(l1), solset(l2)
+                same = s1 == s2
+                if not same and s1[0] == "point" and s2[0] == "point" and floaty_c:
+                    same = abs(s1[1] - s2[1]) <= REL_TOL * max(F(1), abs(s1[1]), abs(s2[1]))
+                vd.decided = True
+                if not same:
+                    vd.same = False
+                    vd.witness = {"linear_solution_sets": [str(s1), str(s2)]}
+                else:
+                    vd.note = "linear: identical solution sets"
+                return vd
     vd.decided = False
     vd.note = "undecided: zero sets agree on the grid, differences not proportional"
     return vd
